@@ -294,7 +294,7 @@ Theorem sifo_refines : forall n c checked asc, sifo_dom n c = true ->
 Proof.
   intros n c checked asc H. unfold sifo_dom, vecs_len_ok in H.
   apply andb_true_iff in H as [H Hc]. apply andb_true_iff in H as [Hn Hl].
-  unfold M_sifo. rewrite Hn. cbn [negb]. rewrite andb_false_r. cbn [good_params p_sifo_thr p_sifo_desc p_sifo_arr p_sifo_idx].
+  unfold M_sifo. rewrite Hn. cbn [negb]. rewrite !andb_false_r. cbn [good_params p_sifo_thr p_sifo_desc p_sifo_arr p_sifo_idx].
   destruct c as [v|m vs|v|m vs|v|m vs]; try discriminate Hc; cbn [cfs_keys cfs_len] in *.
   - cbn. rewrite np_argsort_spec. apply Nat.eqb_eq in Hn. rewrite Hn. rewrite finish_S_order. reflexivity.
   - apply Nat.leb_le in Hc.
@@ -335,11 +335,11 @@ Proof. intros. unfold M_sifo_top. apply sifo_refines. assumption. Qed.
 
 (* Frame.sort_values: container for sort -> order *)
 Theorem fsv_order_refines : forall n c checked asc, fsv_dom n c = true ->
-  M_fsv_order RangeDown RangeDown true n c checked asc = Ok (S_order (cfs_keys c) n asc).
+  M_fsv_order RangeDown RangeDown true true n c checked asc = Ok (S_order (cfs_keys c) n asc).
 Proof.
   intros n c checked asc H. unfold fsv_dom, vecs_len_ok in H.
   apply andb_true_iff in H as [H Hc]. apply andb_true_iff in H as [Hn Hl].
-  unfold M_fsv_order. rewrite Hn. cbn [negb]. rewrite andb_false_r.
+  unfold M_fsv_order. rewrite Hn. cbn [negb]. rewrite !andb_false_r.
   destruct c as [v|m vs|v|m vs|v|m vs]; try discriminate Hc; cbn [cfs_keys cfs_len] in *.
   - rewrite np_argsort_spec. apply Nat.eqb_eq in Hn. rewrite Hn, finish_S_order. reflexivity.
   - destruct vs as [|v1 [|v2 vs]]; [discriminate Hc| |].
@@ -371,22 +371,26 @@ Theorem frame_sort_values_refines : forall axis f sel single keyres asc,
   let c := fsv_cfs axis (sf_obs f) sel single keyres in
   let n := fsv_n axis (sf_obs f) in
   fsv_dom n c = true ->
+  fsv_zero_ok axis (sf_obs f) keyres = true ->
   fsv_hier_ok axis f (S_order (cfs_keys c) n asc) = true ->
   M_frame_sort_values good_params axis f sel single keyres asc =
   Ok (S_frame_sort axis (sf_obs f) (cfs_keys c) asc).
 Proof.
-  intros axis f sel single keyres asc Hax c n Hd Hh.
-  unfold M_frame_sort_values. cbn [good_params p_fsv1_arr p_fsv1_frame p_fsv0_arr p_fsv0_frame p_fsv_desc].
+  intros axis f sel single keyres asc Hax c n Hd Hz Hh.
+  unfold M_frame_sort_values. cbn [good_params p_fsv1_arr p_fsv1_frame p_fsv0_arr p_fsv0_frame p_fsv_desc p_fsv0_len_check p_fsv1_len_check].
   assert (Ec : (match keyres with
                 | Some c0 => (c0, true)
                 | None => (fsv_default_cfs axis (sf_obs f) sel single, false)
                 end) = (c, match keyres with Some _ => true | None => false end)).
   { unfold c, fsv_cfs. destruct keyres; reflexivity. }
-  rewrite Ec. clear Ec. unfold S_frame_sort, fsv_hier_ok, fsv_n in *.
+  rewrite Ec. clear Ec. unfold S_frame_sort, fsv_hier_ok, fsv_n, fsv_zero_ok in *.
   destruct Hax as [-> | ->]; cbn [Z.eqb Pos.eqb] in *.
   - rewrite (fsv_order_refines _ _ _ _ Hd). cbn [res_bind]. unfold M_apply_rows.
     rewrite reorder_index_ok; [reflexivity|apply S_order_lt|exact Hh].
-  - rewrite (fsv_order_refines _ _ _ _ Hd). cbn [res_bind]. unfold M_apply_cols.
+  - assert (G : negb (match keyres with Some _ => true | None => false end) &&
+                (length (of_cols (sf_obs f)) =? 0)%nat = false).
+    { destruct keyres; [reflexivity|]. cbn [andb negb] in *. apply negb_true_iff in Hz. exact Hz. }
+    rewrite G. rewrite (fsv_order_refines _ _ _ _ Hd). cbn [res_bind]. unfold M_apply_cols.
     rewrite reorder_index_ok; [reflexivity|apply S_order_lt|exact Hh].
 Qed.
 
@@ -447,4 +451,35 @@ Theorem index_sort_refines : forall depth labels asc,
 Proof.
   intros depth labels asc keys Hh. unfold M_index_sort. rewrite sifo_index_refines. cbn [order2d_to_typeerror res_bind].
   rewrite reorder_index_ok; [reflexivity|apply S_order_lt|exact Hh].
+Qed.
+
+(* ------------------------------------------------------------------ malformed key results are always rejected *)
+(* whatever the key function returns (any class, any content): a result whose extent along the sorted axis is
+   not the axis length never produces a sorted container -- the call raises RuntimeError *)
+Theorem sifo_rejects_wrong_length : forall depth labels c asc, cfs_len c <> length labels ->
+  M_sifo_top good_params depth labels (Some c) asc = Err "RuntimeError".
+Proof.
+  intros depth labels c asc H. unfold M_sifo_top, M_sifo. cbn [good_params p_sifo_len_check andb].
+  apply Nat.eqb_neq in H. rewrite H. reflexivity.
+Qed.
+
+Theorem frame_sort_values_rejects_wrong_length : forall axis f sel single c asc, (axis = 1 \/ axis = 0) ->
+  cfs_len c <> fsv_n axis (sf_obs f) ->
+  M_frame_sort_values good_params axis f sel single (Some c) asc = Err "RuntimeError".
+Proof.
+  intros axis f sel single c asc Hax H. unfold M_frame_sort_values, fsv_n in *.
+  cbn [good_params p_fsv0_len_check p_fsv1_len_check p_fsv1_arr p_fsv1_frame p_fsv0_arr p_fsv0_frame p_fsv_desc].
+  destruct Hax as [-> | ->]; cbn [Z.eqb Pos.eqb negb andb] in *;
+    unfold M_fsv_order; cbn [andb]; apply Nat.eqb_neq in H; rewrite H; reflexivity.
+Qed.
+
+Theorem sort_index_family_rejects_wrong_length : forall c asc,
+  (forall f, cfs_len c <> length (of_index (sf_obs f)) -> M_frame_sort_index good_params f (Some c) asc = Err "RuntimeError") /\
+  (forall f, cfs_len c <> length (of_columns (sf_obs f)) -> M_frame_sort_columns good_params f (Some c) asc = Err "RuntimeError") /\
+  (forall s, cfs_len c <> length (os_index (ss_obs s)) -> M_series_sort_index good_params s (Some c) asc = Err "RuntimeError") /\
+  (forall depth labels, cfs_len c <> length labels -> M_index_sort good_params depth labels (Some c) asc = Err "RuntimeError").
+Proof.
+  intros c asc. repeat split; intros;
+    unfold M_frame_sort_index, M_frame_sort_columns, M_series_sort_index, M_index_sort;
+    rewrite sifo_rejects_wrong_length by assumption; reflexivity.
 Qed.
